@@ -35,6 +35,15 @@ const (
 
 func version(i int) params.YouVersion { return params.YouVersion(101 + i) }
 
+// oldVersion(i): the protocol version in force BEFORE version(i) on chains with a version switch:
+// committees of half the size
+func oldVersion(i int) params.YouVersion { return params.YouVersion(111 + i) }
+
+func oldTriple(i int) [3]uint64 {
+	t := triples[i]
+	return [3]uint64{(t[0] + 1) / 2, t[1] / 2, t[2] / 2}
+}
+
 func TestMain(m *testing.M) {
 	params.InitNetworkId(params.NetworkIdForTestCase)
 	base := params.Versions[params.YouV5]
@@ -44,6 +53,12 @@ func TestMain(m *testing.M) {
 		yp.ProposerThreshold, yp.ValidatorThreshold, yp.CertValThreshold = t[0], t[1], t[2]
 		yp.EnableBls = true
 		params.Versions[version(i)] = yp
+		old := base
+		ot := oldTriple(i)
+		old.Version = oldVersion(i)
+		old.ProposerThreshold, old.ValidatorThreshold, old.CertValThreshold = ot[0], ot[1], ot[2]
+		old.EnableBls = true
+		params.Versions[oldVersion(i)] = old
 	}
 	kit.Main(m, "C01")
 }
@@ -74,12 +89,16 @@ type Case struct {
 	Decoy bool `json:"decoy"`
 	// (with ViaChain) the chain already holds a header with this hash at this height (the votes are not hashed)
 	Known bool `json:"known"`
+	// (with ViaChain) the protocol version switched shortly before: the synthetic headers below number
+	// N-8-Switch carry an older version with committees of half the size; the header is additionally verified
+	// as the last one of a VerifyHeaders batch that starts before the switch header. 0 = no switch
+	Switch int `json:"switch,omitempty"`
 	Edits     []Edit       `json:"edits"`
 }
 
 var editKinds = []string{"drop", "drop", "dropsig", "dup", "reproof", "wrongblock", "wrongpayload", "addnonmember", "addnonmember",
 	"outofrange", "votes", "flip", "stealidx", "agg", "containerri", "hdrth", "hdrth", "proposer", "proposer", "trim", "trim", "trim",
-	"certhdrth", "swapstep", "atk-valth", "atk-propth", "atk-certth", "atk-outsiders", "atk-decoyset", "atk-number-wrap"}
+	"certhdrth", "swapstep", "atk-valth", "atk-propth", "atk-certth", "atk-outsiders", "atk-decoyset", "atk-number-wrap", "atk-oldversion"}
 
 func genCase(t *rapid.T) Case {
 	c := Case{Params: rapid.IntRange(0, 2).Draw(t, "params"), Seed: rapid.Uint8().Draw(t, "seed")}
@@ -88,6 +107,9 @@ func genCase(t *rapid.T) Case {
 	c.ViaChain = rapid.Bool().Draw(t, "viachain")
 	c.Decoy = c.ViaChain && rapid.Bool().Draw(t, "decoy")
 	c.Known = c.ViaChain && rapid.IntRange(0, 2).Draw(t, "known") == 0
+	if c.ViaChain && rapid.IntRange(0, 2).Draw(t, "switch") == 0 {
+		c.Switch = rapid.IntRange(1, 4).Draw(t, "switchat")
+	}
 	c.CheckBase = rapid.IntRange(0, 3).Draw(t, "checkbase") == 0
 	T := triples[c.Params][1]
 	if c.Cert {
@@ -536,6 +558,52 @@ func (w *world) applyEdit(e Edit, hashOf func() common.Hash) string {
 			}
 		}
 		return "edit:atk-outsiders"
+	case "atk-oldversion":
+		// proposer credential and precommits as the PREVIOUS protocol version would have them (committees of half
+		// the size: other seat counts, a smaller quorum) although the new version is in force for this round
+		ot := oldTriple(w.c.Params)
+		found := false
+		for ri := uint32(1); ri <= 60 && !found; ri++ {
+			for _, i := range w.members {
+				sp := w.set.Specs[i]
+				cr := uk.Sortition(sp.Key, w.seed, ri, stepProposal, ot[0], sp.Stake, w.set.TotalChamber)
+				if cr.J >= 1 {
+					w.proposer, w.propKey, w.propCred, w.consRI = i, sp.Key, cr, ri
+					w.subUsers, w.priority = cr.J, refPriority(cr.Value, cr.J)
+					w.propNote = "credential computed under the previous version's proposer committee"
+					found = true
+					break
+				}
+			}
+		}
+		if !found {
+			return ""
+		}
+		w.contRI = w.consRI
+		w.hdrTh = ot
+		ll := w.commit
+		ll.entries, ll.sigs = nil, nil
+		for _, i := range w.members {
+			sp := w.set.Specs[i]
+			cr := uk.Sortition(sp.Key, ll.seed, w.contRI, ll.step, ot[1], sp.Stake, w.set.TotalChamber)
+			if cr.J < 1 {
+				continue
+			}
+			ll.entries = append(ll.entries, entry{signer: i, voterIdx: uint32(w.set.Index[i]), proofBy: i, proofRI: w.contRI, proofStep: ll.step, proofSeed: ll.seed,
+				value: cr.Value, proof: cr.Proof, votes: cr.J})
+			ll.sigs = append(ll.sigs, sigItem{signer: i, payload: "ok"})
+		}
+		if w.cert != nil {
+			w.cert.entries, w.cert.sigs = nil, nil
+			for _, i := range w.members {
+				en, cr := w.honestEntry(w.cert, i, w.contRI)
+				if cr.J >= 1 {
+					w.cert.entries = append(w.cert.entries, en)
+					w.cert.sigs = append(w.cert.sigs, sigItem{signer: i, payload: "ok"})
+				}
+			}
+		}
+		return "edit:atk-oldversion"
 	case "atk-number-wrap":
 		// a block whose number is a multiple of 2^64, without any vote: no genesis block, whatever its low bits say
 		w.wrapK = 1 + e.A%3
@@ -717,6 +785,16 @@ func runCase(c Case) kit.Result {
 	ypc := params.Versions[version(c.Params)]
 	chain := uk.NewFakeChain(set, &ypc, w.number-1, c.Seed)
 	chain.HeaderVersion = version(c.Params)
+	var switchAt uint64 // first header that records the new version
+	if c.Switch > 0 && w.number > uint64(8+c.Switch) {
+		switchAt = w.number - 8 - uint64(c.Switch) + 1
+		chain.VersionOf = func(n uint64) params.YouVersion {
+			if n < switchAt {
+				return oldVersion(c.Params)
+			}
+			return version(c.Params)
+		}
+	}
 	if c.Decoy {
 		ds := append([]uk.ValSpec(nil), c.Vals...)
 		for i := range ds {
@@ -785,6 +863,7 @@ func runCase(c Case) kit.Result {
 	}
 
 	panicked, viaChainOnly, viaChainAccepts, sideOnly := false, false, 0, ""
+	batchRuns, batchOnly := 0, false
 	srv, err := ucon.NewVRFServer(youdb.NewMemDatabase())
 	if err != nil {
 		return kit.Discarded("server: " + err.Error())
@@ -886,6 +965,28 @@ func runCase(c Case) kit.Result {
 				chain.Pin(w.number, types.CopyHeader(blk.Header()))
 			}
 			err2 := srv.VerifyHeader(chain, blk.Header(), true)
+			if err2 != nil && switchAt > 1 {
+				// third entry: the last header of a VerifyHeaders batch that starts before the switch header
+				// (the synthetic ones carry no seal: only the verdict on the last one is looked at)
+				var batch []*types.Header
+				for n := switchAt - 1; n < w.number; n++ {
+					batch = append(batch, chain.GetHeaderByNumber(n))
+				}
+				batch = append(batch, blk.Header())
+				seals := make([]bool, len(batch))
+				seals[len(seals)-1] = true
+				abort, results := srv.VerifyHeaders(chain, batch, seals)
+				var last error
+				for range batch {
+					last = <-results
+				}
+				close(abort)
+				batchRuns++
+				if last == nil {
+					err2 = nil
+					batchOnly = true
+				}
+			}
 			chain.Pin(w.number, nil)
 			if err2 == nil {
 				viaChainAccepts++
@@ -980,6 +1081,15 @@ func runCase(c Case) kit.Result {
 	}
 	if c.Known {
 		labels = append(labels, "hash-known-canonical")
+	}
+	if switchAt > 0 {
+		labels = append(labels, "version-switch-before")
+	}
+	if batchRuns > 0 {
+		labels = append(labels, "verified-in-batch-over-switch")
+	}
+	if batchOnly {
+		labels = append(labels, "accepted-by-batch-only")
 	}
 	if viaChainOnly {
 		labels = append(labels, "accepted-by-VerifyHeader-only")
